@@ -226,7 +226,18 @@ fn expected_unit_name(described_as: &str) -> &'static str {
     UNITS.iter().find(|u| u.0 == described_as).map(|u| u.1).unwrap_or("None")
 }
 
-static META: Metadata<'static> = Metadata::new("verif", Level::INFO, Some("verif"));
+static METAS: [Metadata<'static>; 5] = [
+    Metadata::new("verif", Level::INFO, Some("verif")),
+    Metadata::new("verif", Level::TRACE, Some("verif")),
+    Metadata::new("verif", Level::DEBUG, None),
+    Metadata::new("verif::deep", Level::WARN, Some("verif")),
+    Metadata::new("verif", Level::ERROR, Some("other")),
+];
+/// The call-site metadata of a registration: any verbosity level, target and module (a metric is a metric whatever the
+/// call site says about itself). Chosen by the run's own choice counter.
+fn meta() -> &'static Metadata<'static> {
+    &METAS[(detsim::choices() % 5) as usize]
+}
 
 #[derive(Clone)]
 enum Handle {
@@ -238,9 +249,9 @@ enum Handle {
 fn register(rec: &Rec, spec: &KeySpec) -> Handle {
     let key = mk_key(spec);
     match spec.kind.as_str() {
-        "c" => Handle::C(rec.register_counter(&key, &META)),
-        "h" => Handle::H(rec.register_histogram(&key, &META)),
-        _ => Handle::G(rec.register_gauge(&key, &META)),
+        "c" => Handle::C(rec.register_counter(&key, meta())),
+        "h" => Handle::H(rec.register_histogram(&key, meta())),
+        _ => Handle::G(rec.register_gauge(&key, meta())),
     }
 }
 
@@ -296,9 +307,9 @@ fn decoy_touch(spec: &KeySpec, ki: usize, via_local: bool) {
         metrics::with_local_recorder(&rec, || metrics::with_recorder(|r| {
             let key = mk_key(spec);
             match spec.kind.as_str() {
-                "c" => Handle::C(r.register_counter(&key, &META)),
-                "h" => Handle::H(r.register_histogram(&key, &META)),
-                _ => Handle::G(r.register_gauge(&key, &META)),
+                "c" => Handle::C(r.register_counter(&key, meta())),
+                "h" => Handle::H(r.register_histogram(&key, meta())),
+                _ => Handle::G(r.register_gauge(&key, meta())),
             }
         }))
     } else {
@@ -335,9 +346,9 @@ fn updater(rec: Rec, log: BLog, plan: Value, ops: Vec<Value>, gate: RegistryGate
                         metrics::with_local_recorder(&rec, || metrics::with_recorder(|r| {
                             let key = mk_key(spec);
                             match spec.kind.as_str() {
-                                "c" => Handle::C(r.register_counter(&key, &META)),
-                                "h" => Handle::H(r.register_histogram(&key, &META)),
-                                _ => Handle::G(r.register_gauge(&key, &META)),
+                                "c" => Handle::C(r.register_counter(&key, meta())),
+                                "h" => Handle::H(r.register_histogram(&key, meta())),
+                                _ => Handle::G(r.register_gauge(&key, meta())),
                             }
                         }))
                     } else {
